@@ -109,6 +109,53 @@ def check(ctx):
         o.sample({'operation': f'{c.name}.{op}', 'mutation_sites': [f'{x.line}: {x.src()[:60]}' for x in muts]})
     o.require(nmut >= 8, f'only {nmut} mutation sites recognised in the pool operations (expected >= 8)')
 
+    # ---- C09.8 the environment may be absent ---------------------------------------------------------------
+    o8 = Ob('C09.8', 'K10c', 'a manager that is not initialised yet (no environment: the class itself tests `_env != None` in add_resources) never dereferences the '
+                             'environment after it has changed a pool or the waiting list: an AttributeError there leaves the operation half done')
+    obs.append(o8)
+    guarded_somewhere = any(isinstance(x, ast.Compare) and any(is_self_attr(y, '_env') for y in [x.left] + x.comparators)
+                            and any(isinstance(y, ast.Constant) and y.value is None for y in [x.left] + x.comparators)
+                            for _k, _n, f_ in RM.all_functions() for x in ast.walk(f_))
+    o8.count()
+    if guarded_somewhere:
+        o8.witness('class-tests-env-for-None')
+        for c, op in ops:
+            if c is not RM:
+                continue
+            g = ctx.graph(c, op)
+
+            def h8(an_, n, before, after, g=g):
+                st = after
+                if is_mutation(g, n):
+                    st = st.with_flag('mutated')
+                if before.fields.get('_env') == 'N' and n.ast is not None and n.kind in ('stmt', 'cond', 'return'):
+                    roots = own_exprs(n) if n.kind != 'stmt' else [n.ast]
+                    if any(isinstance(x, ast.Attribute) and is_self_attr(x.value, '_env') for r_ in roots for x in ast.walk(r_)):
+                        st = st.with_flag('DEREF-AFTER-MUTATION' if 'mutated' in st.flags else 'deref-before')
+                return st
+            an8 = Analysis(P, g, ['_env'])
+            an8.node_hooks.append(h8)
+            res8 = ctx.explore(an8, [State({'_env': 'N'})], follow_exc=False)
+            reported = False
+            for nid, states in res8.seen.items():
+                for k_, (st, parent) in states.items():
+                    if 'DEREF-AFTER-MUTATION' in st.flags and not reported:
+                        n = g.nodes[nid]
+                        # report at the first node at which the flag appears
+                        ps = res8.path(nid, st)
+                        first = next((x for x in ps if x.ast is not None and any(isinstance(y, ast.Attribute) and is_self_attr(y.value, '_env') for y in ast.walk(x.ast)) and x.kind in ('stmt', 'cond', 'return')), n)
+                        mut = next((x for x in ps if is_mutation(g, x)), None)
+                        if mut is not None and ps.index(first) < ps.index(mut):
+                            later = [x for x in ps[ps.index(mut):] if x.ast is not None and x.kind in ('stmt', 'cond', 'return') and any(isinstance(y, ast.Attribute) and is_self_attr(y.value, '_env') for y in ast.walk(x.ast))]
+                            first = later[0] if later else first
+                        o8.fail(P, f'{c.name}.{op}', None, f'on a manager that has no environment yet {op} changes state (line {mut.line if mut else "?"}) and then uses self._env: '
+                                'the AttributeError leaves the change in place (an operation that raises must change nothing)', node=first,
+                                path=res8.path_lines(nid, st))
+                        reported = True
+            o8.count()
+            if not reported:
+                o8.witness((op, 'ok'))
+
     # ---- C09.2 fallible access after mutation --------------------------------------------------------
     o = Ob('C09.2', 'K10b', 'ReservedResources.release: a holdings access after the first mutation is guarded by a condition implying the guard under which '
                             'the same key was validated (inside try/except KeyError) before the mutation')
